@@ -160,7 +160,7 @@ def plan(tier, seed):
     n = 16
     return (
         [{"kind": "attrs", "shard": i, "of": n, "extra": 0 if tier == "quick" else 2000} for i in range(n)]
-        + [{"kind": "enums"}]
+        + [{"kind": "enums"}, {"kind": "suite"}]
         + [{"kind": "corpus", "shard": i, "of": 4} for i in range(4)]
         + [{"kind": "online", "n": 30 if tier == "quick" else 500, "shard": i} for i in range(4 if tier == "quick" else 16)]
     )
@@ -442,6 +442,10 @@ def acc_key(ident, v):
 def run_unit(unit, tier, seed, acc):
     from vlib import env, introspect
 
+    if unit.get("kind") == "suite":  # the repository's own tests as one more workload for this property's monitor
+        from vlib import suite
+
+        return suite.run_suite_unit(ID, acc)
     if unit["kind"] == "enums":
         return run_enums(acc)
     if unit["kind"] == "corpus":
@@ -549,6 +553,11 @@ def run_enums(acc):
 
 def replay(w, acc):
     from pptx.oxml import oxml_parser
+
+    if "suite_test" in w:
+        from vlib import suite
+
+        return suite.replay_suite(w, acc, ID)
 
     el = oxml_parser.makeelement(w["T"])
     if "text" in w:
